@@ -55,3 +55,16 @@ Print Assumptions C09_commands_go_to_origin.
 Theorem C09_source_keys_flows_by_address_then_flow_id : flow_map_shape = KeyAddrThenSid.
 Proof. reflexivity. Qed.
 Print Assumptions C09_source_keys_flows_by_address_then_flow_id.
+
+(* translator obligations (lib/gen_statespace.py reads the structs, statics and mutable bindings of the
+   modelled code on every run): the code has the state the model represents and no other *)
+From Portus Require Import StateTie.
+From PortusGen Require Import StateSpace.
+From Coq Require Import String.
+Open Scope string_scope.
+Theorem C09_source_run_inner_state : impl_mut_run_inner = model_mut_run_inner.
+Proof. exact mut_run_inner_tie. Qed.
+Print Assumptions C09_source_run_inner_state.
+Theorem C09_source_shared_state_run : nth 1 impl_shared_state_tokens "" = "src/run.rs: AtomicBool HashMap unsafe".
+Proof. exact shared_state_run. Qed.
+Print Assumptions C09_source_shared_state_run.
